@@ -209,7 +209,7 @@ int main(int argc, char** argv) {
         *len = 0;
         pid_t pid = fork();
         if (pid == 0) {
-            alarm(300);
+            alarm(120);
             if (sc.policy == "fast") run<pol::fast>(sc);
             else if (sc.policy == "chk") run<pol::chk>(sc);
             else if (sc.policy == "ind") run<pol::ind>(sc);
